@@ -65,6 +65,7 @@ func reg2[A, B any](a, b string) {
 	reg3[A, B, map[string]any](a, b, "MSA")
 	reg3[A, B, map[string]string](a, b, "MSS")
 	reg3[A, B, any](a, b, "ANY")
+	reg3[A, B, SM](a, b, "SM")
 }
 func reg1[A any](a string) {
 	reg2[A, T](a, "T")
@@ -72,6 +73,7 @@ func reg1[A any](a string) {
 	reg2[A, map[string]any](a, "MSA")
 	reg2[A, map[string]string](a, "MSS")
 	reg2[A, any](a, "ANY")
+	reg2[A, SM](a, "SM")
 }
 
 func init() {
@@ -80,6 +82,7 @@ func init() {
 	reg1[map[string]any]("MSA")
 	reg1[map[string]string]("MSS")
 	reg1[any]("ANY")
+	reg1[SM]("SM")
 }
 
 func instanceFor(p *Program) instance {
